@@ -2,7 +2,7 @@
    H_d: every canonical CURIE prefix p has its first occurrence of the delimiter in p ++ d at |p|
    ("prefixes do not contain the delimiter"; for one-character delimiters exactly [~ In d p]). *)
 From Curies.model Require Import Str PyData Trie Conv Query Val Answer Spec CheckQ.
-From Curies.proofs Require Import StrFacts IndexFacts QueryFacts LawFacts.
+From Curies.proofs Require Import StrFacts IndexFacts QueryFacts LawFacts CheckFacts PModelFacts.
 
 Theorem C03_lossless : forall d rs c, mk_conv true d rs = Val c -> forall u x, H_d d rs ->
   compress c u false false = Val (Some x) ->
@@ -67,3 +67,8 @@ Example C03_hypotheses_satisfiable :
   prefix_freeb [ {| r_prefix := [97]; r_uri := [104;47]; r_psyn := []; r_usyn := [[103;47]]; r_pat := None |} ]%N = true
   /\ delim_safe [58%N] [97%N] = true.
 Proof. vm_compute. auto. Qed.
+
+(* the executable predicate P_C03 (these laws, evaluated on observed answers) accepts the model's own answers on every valid case *)
+Theorem C03_P_model : forall k, valid_q k = true -> eval_P 3 k (model_qobs k) = 1%Z.
+Proof. exact PModelFacts.P_C03_model. Qed.
+Print Assumptions C03_P_model.
